@@ -22,7 +22,9 @@ BANNED = {"strlen", "strcpy", "strcat", "sprintf", "vsprintf", "strchr", "strrch
 
 
 def specs():
-    return [common.hdr_unit(h, h) for h in HDRS] + [common.src_unit(s) for s in SRCS]
+    # al/os.h: the replacements of memmem / memrchr / reallocarray / explicit_bzero / strlcpy / timingsafe_bcmp, which the
+    # codecs call on platforms that lack them, are part of the scope (second configuration)
+    return [common.hdr_unit(h, h) for h in HDRS] + [common.src_unit(s) for s in SRCS] + [common.os_portable_unit()]
 
 
 def ban_rule(rep, fn):
